@@ -30,7 +30,8 @@ GridVerdicts(o) ==
 MethodVerdicts(o) ==
   IF o.status # 200 THEN {}
   ELSE C01(o) \cup
-       (IF IsUtility(Method(o)) /\ HasEval(o) THEN C03(o) \cup C04(o) ELSE {})
+       (IF IsUtility(Method(o)) /\ HasEval(o) THEN C03(o) \cup C04(o) ELSE {}) \cup
+       (IF Method(o) = "majorityHeuristic" /\ HasEval(o) THEN C11(o) ELSE {})
 
 (* relation between the members of a group of runs (adjacent lines sharing case.group.id) *)
 GroupSummary(o) ==
